@@ -5,7 +5,9 @@
    dove distances, min phred), ref = contig sequence, fs = the molecule's fragments. *)
 From Coq Require Import ZArith List Bool.
 Import ListNotations.
+From Coq Require Import Permutation.
 From SCMO Require Import Lib.Val Gen.GenTaps Model.C14 Proofs.C14_a Proofs.C14.
+From SCMO Require Import Model.C14x Proofs.C14x Proofs.C14y Proofs.C14z.
 Open Scope Z_scope.
 
 (* FINITE (bound in the statement): over the 5^3 = 125 three-letter contexts on {A,C,G,T,N} both generated
@@ -218,3 +220,213 @@ Proof.
   all: match goal with H : _ = OK _ |- _ => vm_compute in H; injection H as <-; vm_compute; reflexivity end.
 Qed.
 Print Assumptions C14_example.
+
+(* ============================================================================================================
+   THE MOLECULE ABSTRACTION (Model/C14x.v).  The molecule as pysam gives it: per mate is_reverse, MD present,
+   query_sequence, query_qualities and the entries (query index | None, reference position | None, MD character) of
+   get_aligned_pairs(with_seq=True) -- soft clips / insertions have no reference position, deletions / skips no
+   query index.  rcalls is obtain_methylation_calls written on these raw entries (read_to_consensus_dict,
+   get_consensus_dictionaries with the dove-tail safe span, pick_best_base_call, Fragment.get_consensus,
+   Molecule.get_consensus); abs_frag the abstraction (matches_only view, reference_start, reference_end) on which
+   `calls` above works.  rwf: what every pysam alignment satisfies (aligned bases ACGTN with phred >= 0 at
+   reference positions >= 0, no reference position twice, covered reference positions increasing).
+   ============================================================================================================ *)
+
+(* the caller on the raw aligned pairs IS the caller above on the abstraction: every theorem above applies to it *)
+Theorem C14_raw_refines : forall c ref fs, rcalls c ref fs = calls c ref (map abs_frag fs).
+Proof. exact rcalls_abs. Qed.
+Print Assumptions C14_raw_refines.
+
+(* the matches_only view: exactly the entries with a query index and a reference position, carrying
+   query_sequence[qpos], query_qualities[qpos] and the MD character *)
+Theorem C14_matches_only_view : forall w p, In p (matched w) <->
+  exists a q, In a (w_ap w) /\ a_q a = Some q /\ a_r a = Some (p_pos p) /\
+              p_base p = nthZ (w_seq w) q /\ p_qual p = nthZ (w_qual w) q /\ p_ref p = a_b a.
+Proof. exact matched_spec. Qed.
+Print Assumptions C14_matches_only_view.
+
+(* reference_start / reference_end bracket every covered reference position (deletions and skips included) and
+   are attained *)
+Theorem C14_reference_span : forall w,
+  (increasing (rpositions w) = true -> forall r, In r (rpositions w) -> ref_start w <= r < ref_end w) /\
+  (rpositions w <> [] -> In (ref_start w) (rpositions w) /\ In (ref_end w - 1) (rpositions w)) /\
+  (forall p, In p (matched w) -> In (p_pos p) (rpositions w)).
+Proof. exact (fun w => conj (fun Hi r => ref_bounds w r Hi) (conj (ref_start_covered w) (matched_rpositions w))). Qed.
+Print Assumptions C14_reference_span.
+
+(* the mate-overlap-safe span AS CODED in get_consensus_dictionaries: none for allow_unsafe_base_calls; otherwise
+   both mates, facing inward, [start of the FORWARD mate + its dove distance, end of the REVERSE mate - its dove
+   distance - 1] -- the part of the reverse mate left of the forward mate's start and the part of the forward mate
+   right of the reverse mate's end (a dove-tail) are outside; the distance goes with the ROLE (R1 / R2) *)
+Theorem C14_safe_span_rule : forall c f lo hi, safe_span c f = Some (lo, hi) <->
+  (c_unsafe c = true /\ lo = None /\ hi = None) \/
+  (c_unsafe c = false /\ exists r1 r2, f = (Some r1, Some r2) /\
+     ((r_rev r1 = true /\ r_rev r2 = false /\
+       lo = Some (r_start r2 + c_d2 c) /\ hi = Some (r_end r1 - c_d1 c - 1)) \/
+      (r_rev r1 = false /\ r_rev r2 = true /\
+       lo = Some (r_start r1 + c_d1 c) /\ hi = Some (r_end r2 - c_d2 c - 1)))).
+Proof. exact safe_span_rule. Qed.
+Print Assumptions C14_safe_span_rule.
+
+(* WHICH FRAGMENT CALLS WHICH BASE WHERE, declaratively (FragCall / Obs in Proofs/C14z.v): b is not N, no mate
+   lacks its MD tag, the safe span exists, and one mate observes b at pos inside the span (aligned there, phred >=
+   min_phred_score, MD character = the base methylation is called on) while every such observation of the other
+   mate there has a lower phred, or the same phred and the same base *)
+Theorem C14_fragment_call : forall c f pos b, fragcallb c f pos b = true <-> FragCall c f pos b.
+Proof. exact fragcallb_spec. Qed.
+Print Assumptions C14_fragment_call.
+
+(* ... and that is exactly when the fragment votes (pos, b) in Molecule.get_consensus, for every fragment of every
+   well-formed raw molecule (overlapping, dove-tailed, with indels / clips, single mates, missing MD) *)
+Theorem C14_fragment_votes : forall c fs f pos b, rwf fs = true -> In f fs ->
+  (In (pos, b) (rfrag_votes c f) <-> FragCall c (abs_frag f) pos b).
+Proof. exact raw_frag_votes_iff. Qed.
+Print Assumptions C14_fragment_votes.
+
+(* the per-position vote = the number of fragments calling that base at that position inside their own safe span *)
+Theorem C14_vote_count : forall c fs pos b, rwf fs = true ->
+  count (rvotes c fs) pos b = nfrag c (map abs_frag fs) pos b.
+Proof. exact raw_vote_count. Qed.
+Print Assumptions C14_vote_count.
+
+(* THE CALL DICTIONARY IS EXACTLY the set of (position, strict-majority base): k is an entry iff its base is one of
+   ACGT called by more fragments than any other base (and by at least one), its cov is that number of fragments and
+   its letter is the specified one (Entry in Proofs/C14z.v); for any number of fragments *)
+Theorem C14_callset_exact : forall c ref fs cs k, rwf fs = true -> rcalls c ref fs = OK cs ->
+  (In k cs <-> Entry c ref (map abs_frag fs) k).
+Proof. exact raw_callset_exact. Qed.
+Print Assumptions C14_callset_exact.
+
+(* ... so the positions carrying a letter are exactly those with a strict-majority base whose specified letter is
+   not '.' (by C14_call_on_reference / C14_no_call: reference C / G with a complete ACGT context, read as the base
+   or its conversion) *)
+Theorem C14_called_positions_exact : forall c ref fs cs pos, rwf fs = true -> rcalls c ref fs = OK cs ->
+  ((exists k, In k cs /\ k_pos k = pos /\ k_letter k <> cDot) <->
+   (exists b, In b bases /\ majority_at c (map abs_frag fs) pos b = true /\
+              spec_letter ref pos (expected c) b <> cDot)).
+Proof. exact called_positions_exact. Qed.
+Print Assumptions C14_called_positions_exact.
+
+(* the only exception, exactly: no strand and a non-empty call set *)
+Theorem C14_raise_exact : forall c ref fs, rwf fs = true ->
+  (rcalls c ref fs = Raise <-> c_strand c = None /\ exists k, Entry c ref (map abs_frag fs) k).
+Proof. exact raw_raise_exact. Qed.
+Print Assumptions C14_raise_exact.
+
+(* the boolean specification evaluated by the check on the implementation's outcomes (mode 2) decides the
+   specification Spec (one entry per position, entries = Entry, AssertionError iff no strand and some Entry) ... *)
+Theorem C14_specb_iff : forall c ref fs res, specb c ref fs res = true <-> Spec c ref fs res.
+Proof. exact specb_iff. Qed.
+Print Assumptions C14_specb_iff.
+
+Theorem C14_run_specb : forall i o, rwf (dec_rfrags i) = true ->
+  (run_C14x 2 (VL [i; o]) = VZ 1 <-> Spec (dec_cfg i) (dec_ref i) (map abs_frag (dec_rfrags i)) (dec_outcome o)).
+Proof. exact run_specb. Qed.
+Print Assumptions C14_run_specb.
+
+(* ... and the model meets it *)
+Theorem C14_model_meets_spec : forall c ref fs, rwf fs = true ->
+  specb c ref (map abs_frag fs) (rcalls c ref fs) = true.
+Proof. exact raw_model_meets_spec. Qed.
+Print Assumptions C14_model_meets_spec.
+
+(* the raw entry point of the extracted model = the entry point above on the abstraction *)
+Theorem C14_run_raw : forall v, rwf (dec_rfrags v) = true ->
+  run_C14x 6 v = enc_result (map abs_frag (dec_rfrags v))
+                            (calls (dec_cfg v) (dec_ref v) (map abs_frag (dec_rfrags v))).
+Proof. exact run_raw. Qed.
+Print Assumptions C14_run_raw.
+
+(* XM from the raw entries: one character per aligned base, the same string as on the abstraction *)
+Theorem C14_raw_xm : forall cs w,
+  rxm cs w = xm cs (abs_read w) /\
+  length (rxm cs w) =
+    length (filter (fun a => match a_q a, a_r a with Some _, Some _ => true | _, _ => false end) (w_ap w)).
+Proof. exact (fun cs w => conj (rxm_abs cs w) (rxm_length cs w)). Qed.
+Print Assumptions C14_raw_xm.
+
+(* INVARIANCE.  same_result: both raise, or both dictionaries hold the same entries (the order of a dict is free) *)
+Theorem C14_fragment_permutation : forall c ref fs fs', rwf fs = true -> Permutation fs fs' ->
+  same_result (rcalls c ref fs) (rcalls c ref fs').
+Proof. exact raw_fragment_permutation. Qed.
+Print Assumptions C14_fragment_permutation.
+
+(* which mate is listed first (is R1): with equal dove distances (the default 0 / 0) the mates of ANY subset of the
+   fragments may be swapped, molecule.strand held fixed ... *)
+Theorem C14_mate_order : forall c ref fs fs', rwf fs = true -> c_d1 c = c_d2 c -> Forall2 rmate_variant fs fs' ->
+  same_result (rcalls c ref fs') (rcalls c ref fs).
+Proof. exact raw_mate_order. Qed.
+Print Assumptions C14_mate_order.
+
+(* ... with different distances only when the distances are swapped with the mates ... *)
+Theorem C14_mate_swap : forall c ref fs, rwf fs = true ->
+  same_result (rcalls (swapc c) ref (map rswapf fs)) (rcalls c ref fs).
+Proof. exact raw_mate_swap. Qed.
+Print Assumptions C14_mate_swap.
+
+(* ... and NOT otherwise: the code is asymmetric in the dove distances (they belong to the roles R1 / R2).  [Outside
+   the model a second asymmetry: Fragment.strand is R1's orientation, so in the pipeline swapping the mates also flips
+   molecule.strand, i.e. c_strand and the base methylation is called on.] *)
+Theorem C14_mate_swap_asymmetric :
+  exists c ref f, wfx [f] = true /\ c_d1 c <> c_d2 c /\
+                  ~ same_result (calls c ref [swapf f]) (calls c ref [f]) /\
+                  same_result (calls (swapc c) ref [swapf f]) (calls c ref [f]).
+Proof. exact mate_swap_asymmetric. Qed.
+Print Assumptions C14_mate_swap_asymmetric.
+
+(* non-vacuity: reference TCGACCGGNCG; R1 forward 1S4M1I4M from 0 (C1 read as T), R2 reverse 3M2D4M from 2 (C5 G6
+   deleted); ex_rdove: R1 forward 4M from 4, R2 reverse 9M from 0 -- the reverse mate's bases left of 4 are outside the
+   safe span [4,8], so C1 is not called by it (it is with allow_unsafe_base_calls) *)
+Example C14_raw_example :
+  rwf (ex_rdove :: ex_rfrags) = true /\
+  ref_start ex_w2 = 2 /\ ref_end ex_w2 = 11 /\ length (matched ex_w2) = 7%nat /\ length (w_ap ex_w2) = 9%nat /\
+  rcalls (ex_cfg false) ex_ref ex_rfrags =
+    OK [mkCall 1 cT c_Z 1; mkCall 5 cC c_z 1; mkCall 4 cC c_x 1; mkCall 9 cC cDot 1] /\
+  rsafe_span (ex_cfg false) ex_rdove = Some (Some 4, Some 8) /\
+  fragcallb (ex_cfg false) (abs_frag ex_rdove) 1 cC = false /\ fragcallb ex_cfg_u (abs_frag ex_rdove) 1 cC = true /\
+  rcalls (ex_cfg false) ex_ref (ex_rdove :: ex_rfrags) =
+    OK [mkCall 1 cT c_Z 1; mkCall 5 cC c_z 2; mkCall 4 cC c_x 2; mkCall 9 cC cDot 1] /\
+  nfrag (ex_cfg false) (map abs_frag (ex_rdove :: ex_rfrags)) 4 cC = 2 /\
+  same_result (rcalls (ex_cfg false) ex_ref (ex_rfrags ++ [ex_rdove])) (rcalls (ex_cfg false) ex_ref (ex_rdove :: ex_rfrags)) /\
+  specb (ex_cfg false) ex_ref (map abs_frag ex_rfrags)
+        (OK [mkCall 9 cC cDot 1; mkCall 4 cC c_x 1; mkCall 5 cC c_z 1; mkCall 1 cT c_Z 1]) = true /\
+  specb (ex_cfg false) ex_ref (map abs_frag ex_rfrags) (OK [mkCall 4 cC c_x 1; mkCall 5 cC c_z 1; mkCall 1 cT c_Z 1]) = false /\
+  (forall cs, rcalls (ex_cfg false) ex_ref ex_rfrags = OK cs ->
+     rxm cs ex_w1 = [cDot; c_Z; cDot; cDot; c_x; c_z; cDot; cDot] /\ rxm cs ex_w2 = [cDot; cDot; c_x; cDot; cDot; cDot; cDot]).
+Proof.
+  repeat split; try (vm_compute; reflexivity).
+  - apply raw_fragment_permutation; [vm_compute; reflexivity|]. apply Permutation_sym. apply (Permutation_cons_append ex_rfrags ex_rdove).
+  - vm_compute in H. injection H as <-. vm_compute. reflexivity.
+  - vm_compute in H. injection H as <-. vm_compute. reflexivity.
+Qed.
+Print Assumptions C14_raw_example.
+
+(* which part of each mate is used (dove-safe calling): every vote of a fragment lies between the start of its FORWARD
+   mate (+ that mate's dove distance) and the last covered position of its REVERSE mate (- that mate's distance); the
+   dove-tails (reverse mate left of the forward mate's start, forward mate right of the reverse mate's end) never vote *)
+Theorem C14_dove_tail_parts : forall c f pos b, c_unsafe c = false -> In (pos, b) (rfrag_votes c f) ->
+  exists w1 w2, f = (Some w1, Some w2) /\
+    ((w_rev w1 = true /\ w_rev w2 = false /\ ref_start w2 + c_d2 c <= pos <= ref_end w1 - c_d1 c - 1) \/
+     (w_rev w1 = false /\ w_rev w2 = true /\ ref_start w1 + c_d1 c <= pos <= ref_end w2 - c_d2 c - 1)).
+Proof. exact raw_vote_in_span. Qed.
+Print Assumptions C14_dove_tail_parts.
+
+(* non-vacuity of the declarative predicates and of the mate-order theorem on the same molecule: R1 calls T at C1
+   (only mate there), the entry (1, T, Z, 1) meets Entry, and swapping the mates (equal distances) changes nothing *)
+Example C14_raw_example_declarative :
+  FragCall (ex_cfg false) (abs_frag (Some ex_w1, Some ex_w2)) 1 cT /\
+  ~ FragCall (ex_cfg false) (abs_frag ex_rdove) 1 cC /\
+  Entry (ex_cfg false) ex_ref (map abs_frag ex_rfrags) (mkCall 1 cT c_Z 1) /\
+  ~ Entry (ex_cfg false) ex_ref (map abs_frag ex_rfrags) (mkCall 1 cC c_z 1) /\
+  Spec (ex_cfg false) ex_ref (map abs_frag ex_rfrags) (rcalls (ex_cfg false) ex_ref ex_rfrags) /\
+  same_result (rcalls (ex_cfg false) ex_ref (map rswapf ex_rfrags)) (rcalls (ex_cfg false) ex_ref ex_rfrags).
+Proof.
+  split; [apply fragcallb_spec; vm_compute; reflexivity|].
+  split; [intros H; apply fragcallb_spec in H; vm_compute in H; discriminate|].
+  split; [apply entryb_iff; vm_compute; reflexivity|].
+  split; [intros H; apply entryb_iff in H; vm_compute in H; discriminate|].
+  split; [apply specb_iff; apply raw_model_meets_spec; vm_compute; reflexivity|].
+  apply (raw_mate_order (ex_cfg false) ex_ref ex_rfrags); [vm_compute; reflexivity|reflexivity|].
+  constructor; [right; reflexivity|constructor].
+Qed.
+Print Assumptions C14_raw_example_declarative.
